@@ -546,6 +546,78 @@ func (c *Ctx) entryDeferredDone(f *ssa.Function, w *types.Var, depth int) bool {
 	return false
 }
 
+// doneCarried: in f, every path from instruction `from` to a return passes something that guarantees
+// W.Done: a deferred Done, a deferred call of a function that calls Done unconditionally, or the spawn
+// of a function that defers Done at its entry.
+func (c *Ctx) doneCarried(f *ssa.Function, from ssa.Instruction, w *types.Var) (bool, string) {
+	P := c.P
+	cut := map[ssa.Instruction]bool{}
+	callsDoneUncond := func(g *ssa.Function) bool {
+		if g == nil || len(g.Blocks) == 0 {
+			return false
+		}
+		for _, cs := range engine.Calls(g) {
+			if fv, ok := isWaitGroupCall(cs, "Done"); ok && fv == w && cs.Instr.Parent() == g {
+				all := true
+				for _, r := range engine.Returns(g) {
+					if !cs.Instr.Block().Dominates(r.Block()) {
+						all = false
+					}
+				}
+				if _, isDefer := cs.Instr.(*ssa.Defer); isDefer || all {
+					return true
+				}
+			}
+		}
+		return false
+	}
+	for _, cs2 := range engine.Calls(f) {
+		if cs2.Instr.Parent() != f || !engine.InstrReaches(from, cs2.Instr) {
+			continue
+		}
+		if fv, ok := isWaitGroupCall(cs2, "Done"); ok && fv == w {
+			if _, isDefer := cs2.Instr.(*ssa.Defer); isDefer {
+				cut[cs2.Instr] = true
+			}
+			continue
+		}
+		if _, isDefer := cs2.Instr.(*ssa.Defer); isDefer {
+			if g := cs2.Common().StaticCallee(); g != nil && callsDoneUncond(g) {
+				cut[cs2.Instr] = true
+			}
+			if g := engine.FuncValue(cs2.Common().Value); g != nil && callsDoneUncond(g) {
+				cut[cs2.Instr] = true
+			}
+		}
+		var cands []*ssa.Function
+		if _, isGo := cs2.Instr.(*ssa.Go); isGo {
+			if g := engine.FuncValue(cs2.Common().Value); g != nil {
+				cands = append(cands, g)
+			}
+			if sc := cs2.Common().StaticCallee(); sc != nil {
+				cands = append(cands, sc)
+			}
+		}
+		for _, a := range cs2.Common().Args {
+			if g := engine.FuncValue(a); g != nil && len(g.Blocks) > 0 {
+				cands = append(cands, g)
+			}
+		}
+		for _, g := range cands {
+			if c.entryDeferredDone(g, w, 0) {
+				cut[cs2.Instr] = true
+			}
+		}
+	}
+	bad := ""
+	for _, ret := range engine.Returns(f) {
+		if engine.InstrReaches(from, ret) && engine.ReachesAvoidingFrom(from.Block(), engine.InstrIndex(from)+1, ret, cut, nil) {
+			bad = P.Pos(ret.Pos())
+		}
+	}
+	return len(cut) > 0 && bad == "", bad
+}
+
 func (c *Ctx) waitGroupPairing() {
 	P, R := c.P, c.R
 	R.Explain("R19.4", "T-PAIR: every WaitGroup.Add on a struct field is followed, on every path to the function's exit, by something that guarantees the matching Done: a deferred Done in the same function, or the spawn (go, GoAnnotated, AfterFunc, ...) of a function that defers Done on the same field at its entry (directly, in a deferred closure, or in the worker method it calls first); the one cross-function pair (user.statesWG: Add in newState, Done deferred in removeState right after the state left the map) is checked against its own table row.")
@@ -601,46 +673,27 @@ func (c *Ctx) waitGroupPairing() {
 				R.Check(okPair, "R19.4", key, P.Pos(cs.Pos()), "paired with the deferred Done in removeState", why+": user.close waits on statesWG for ever (RemoveUser / Close never return)")
 				continue
 			}
-			// carriers after the Add in the same function
-			cut := map[ssa.Instruction]bool{}
-			for _, cs2 := range engine.Calls(f) {
-				if cs2.Instr.Parent() != f || !engine.InstrReaches(cs.Instr, cs2.Instr) {
-					continue
-				}
-				if fv, ok := isWaitGroupCall(cs2, "Done"); ok && fv == w {
-					if _, isDefer := cs2.Instr.(*ssa.Defer); isDefer {
-						cut[cs2.Instr] = true
+			okHere, bad := c.doneCarried(f, cs.Instr, w)
+			if !okHere {
+				// the Add may live in a begin()-style helper: then every caller must carry the Done after the call
+				callers := 0
+				allOK := true
+				for _, cs2 := range P.CallersOf(f) {
+					if !isProductPkg(engine.RelPkg(P.OwnPkgPath(cs2.Fn))) || cs2.Common().StaticCallee() != f {
+						continue
 					}
-					continue
-				}
-				// spawn of a carrier: go f() / call that receives a closure or method value
-				var cands []*ssa.Function
-				if _, isGo := cs2.Instr.(*ssa.Go); isGo {
-					if g := engine.FuncValue(cs2.Common().Value); g != nil {
-						cands = append(cands, g)
-					}
-					if sc := cs2.Common().StaticCallee(); sc != nil {
-						cands = append(cands, sc)
+					callers++
+					// the helper itself must reach its exit after the Add without undoing anything: accept, the
+					// obligation moves to the caller
+					if ok2, _ := c.doneCarried(cs2.Fn, cs2.Instr, w); !ok2 {
+						allOK = false
 					}
 				}
-				for _, a := range cs2.Common().Args {
-					if g := engine.FuncValue(a); g != nil && len(g.Blocks) > 0 {
-						cands = append(cands, g)
-					}
-				}
-				for _, g := range cands {
-					if c.entryDeferredDone(g, w, 0) {
-						cut[cs2.Instr] = true
-					}
+				if callers > 0 && allOK {
+					okHere = true
 				}
 			}
-			bad := ""
-			for _, ret := range engine.Returns(f) {
-				if engine.InstrReaches(cs.Instr, ret) && engine.ReachesAvoidingFrom(cs.Instr.Block(), engine.InstrIndex(cs.Instr)+1, ret, cut, nil) {
-					bad = P.Pos(ret.Pos())
-				}
-			}
-			R.Check(len(cut) > 0 && bad == "", "R19.4", key, P.Pos(cs.Pos()), "every path after Add reaches a deferred Done or spawns the function that defers it", "after "+w.Name()+".Add a return ("+bad+") is reachable without a deferred Done / without starting the goroutine that calls Done: the matching Wait never returns (Close/RemoveUser hang)")
+			R.Check(okHere, "R19.4", key, P.Pos(cs.Pos()), "every path after Add reaches a deferred Done or spawns the function that defers it", "after "+w.Name()+".Add a return ("+bad+") is reachable without a deferred Done / without starting the goroutine that calls Done: the matching Wait never returns (Close/RemoveUser hang)")
 		}
 	}
 	R.Min("R19.4", "WaitGroup.Add sites on struct fields", n, 10)
